@@ -17,7 +17,7 @@ def run(ctx):
         "paths; (EX5) popping above the root is suppressed. Not decided: equality with RFC 3986 5.2.4 (pop discipline, "
         "trailing-slash rule).")
     K = make_kinds(ctx.model)
-    order.ord2(ctx)
+    order.ord2(ctx, K)
     order.ord1(ctx, K)
     order.em_norm(ctx)
     m = ctx.model
